@@ -15,6 +15,10 @@ EXTRA = {"R3-C05-1": ["C05", "C03"], "R3-C05-2": ["C05", "C03", "C02"], "R3-C07-
          "R4-C11-1": ["C11", "C16"], "R4-C05-2": ["C05", "C03"], "R4-C16-2": ["C16", "C20"], "R4-C20-2": ["C20", "C09"], "R4-C06-1": ["C06", "C08"], "R4-C07-1": ["C07", "C17"],
          "R4-C07-2": ["C07", "C17", "C18"], "R4-C02-2": ["C02", "C01"], "R4-C09-2": ["C09", "C11", "C12"], "R4-C10-1": ["C10", "C06"], "R4-C11-2": ["C11", "C14", "C12"], "R4-C14-2": ["C14", "C04"],
          "R4-C01-1": ["C01", "C02"], "R4-C02-1": ["C02", "C01"], "R4-C06-2": ["C06", "C05"], "R4-C15-2": ["C15", "C03"],
+         "R5-C01-1": ["C01", "C15"], "R5-C01-2": ["C01", "C02"], "R5-C02-1": ["C02", "C06"], "R5-C02-2": ["C02", "C10"], "R5-C03-1": ["C03", "C02"], "R5-C04-2": ["C04", "C03"],
+         "R5-C13-1": ["C13", "C12"], "R5-C05-1": ["C05", "C03", "C02"], "R5-C05-2": ["C05", "C03", "C01"], "R5-C06-1": ["C06", "C01"], "R5-C06-2": ["C06", "C08", "C09"],
+         "R5-C07-1": ["C07", "C17"], "R5-C07-2": ["C07", "C01"], "R5-C10-1": ["C10", "C06"], "R5-C10-2": ["C10", "C11"], "R5-C11-1": ["C11", "C05"], "R5-C11-2": ["C11", "C09", "C12"],
+         "R5-C12-2": ["C12", "C04"], "R5-C14-2": ["C14", "C04"], "R5-C16-2": ["C16", "C20"], "R5-C09-2": ["C09", "C08"], "R5-C19-1": ["C19", "C17"],
          "revert-D1": ["C01"], "revert-D2": ["C13", "C12"], "revert-D3": ["C04"], "revert-D4": ["C03", "C12"], "revert-D5": ["C09"]}
 
 
